@@ -98,7 +98,32 @@ class Eval:
         for x in mir.subterms(t):
             if mir.is_call(x, "node_iter") and strip(x[2][0]) == self.base:
                 return True
+        # inside a closure that the parent maps over the elements of the captured pointer:
+        # `f.node_iter().map(|a| .. a.sub() ..)` — the closure's item parameter is such an element
+        if self.fn.kind == "Closure" and self.base[0] == "upvar" and mir.strip_refs(t) == ("param", 2):
+            return self._item_is_elem_of_base()
         return False
+
+    def _item_is_elem_of_base(self):
+        if getattr(self, "_item_elem", None) is not None:
+            return self._item_elem
+        self._item_elem = False
+        for p in self.prog.by_npath.get(self.fn.parent or "", []):
+            if p.unit != self.fn.unit:
+                continue
+            for cs in p.terms.calls:
+                if cs.callee.name not in ITER_ADAPTORS or len(cs.args) < 2:
+                    continue
+                clo = [a for a in cs.args[1:] if isinstance(a, tuple) and a and a[0] == "agg" and a[1] == "closure" and a[2] == self.fn.npath]
+                if not clo or self.base[1] not in (clo[0][5] or ()):
+                    continue
+                captured = mir.strip_refs(strip(clo[0][4][clo[0][5].index(self.base[1])]))
+                src = strip(cs.args[0])
+                while isinstance(src, tuple) and src and src[0] == "call" and src[1].name in ("iter", "into_iter", "deref", "enumerate", "rev", "cloned", "copied") and src[2]:
+                    src = strip(src[2][0])
+                if mir.is_call(src, "node_iter") and mir.strip_refs(strip(src[2][0])) == captured:
+                    self._item_elem = True
+        return self._item_elem
 
     def nu_consistent(self, bb, nu):
         """are the dominating facts at block bb consistent with ν(base) = nu?"""
